@@ -165,6 +165,10 @@ def hazards(case):
         hz.add("aliased_from_import_subsumed_by_star_import")
     if a == "froms_to_imports" and st_ & {"rel_from_dot", "from_pkg_mod"}:
         hz.add("froms_to_imports_of_a_module_imports_only_the_package")
+    if a in ("organize_imports", "handle_long_imports") and "star" in st_ and st_ & {"from_lib", "from_lib_multi"}:
+        hz.add("star_import_dropped_on_reapplication_next_to_explicit_from_import")
+    if a == "froms_to_imports" and {"import_dotted_as", "rel_from_mod"} <= st_:
+        hz.add("froms_to_imports_reapplied_drops_aliased_import_of_same_module")
     if a == "organize_imports" and case["prefs"]["sort_imports_alphabetically"] and ({"import_lib", "import_lib_as"} <= st_ or {"import_dotted_as", "from_pkg_mod"} <= st_):
         hz.add("organize_imports_sort_unstable_for_same_module")
     return hz
